@@ -329,9 +329,10 @@ def run(ctx):
     def keymat(valid=True):
         if valid: return rng.randbytes(16) if rng.random() < 0.7 else rng.randbytes(rng.choice([24, 32]))
         return rng.randbytes(rng.choice([0, 1, 15, 17, 31, 33, 48]))
+    kn_out = drv.batch(["dauth-keyname %d" % g for g in range(0, 40)])
+    keyname = {g: bytes.fromhex(o[3:]).decode() for g, o in zip(range(0, 40), kn_out)}
     for g in keygens:
-        nm = drv.batch(["dauth-keyname %d" % g])[0]
-        name = bytes.fromhex(nm[3:]).decode()
+        name = keyname[g]
         for _ in range(3 if quick else 30):
             bad = rng.random() < 0.25
             kek = rng.randbytes(16 * rng.randint(1, 2)) if not bad or rng.random() < 0.5 else rng.randbytes(rng.choice([0, 8, 20]))
@@ -342,7 +343,7 @@ def run(ctx):
             keys = {"aes_kek_generation_source": kek, name: master}
             for dg in (g - 1, g + 1):
                 if dg >= 1:
-                    dn = bytes.fromhex(drv.batch(["dauth-keyname %d" % dg])[0][3:]).decode()
+                    dn = keyname[dg]
                     keys.setdefault(dn, rng.randbytes(16))
             c = dauth.DAuthClient(keys); c.key_generation = g
             try: real = "ok " + hx(c.calculate_mac(form, data).encode())
@@ -511,6 +512,130 @@ def run(ctx):
             # with a damaged certificate get_tls_key fails later, inside get_tls_cert; the model stops at the exponent
             if not (damage == "keycrc" and real.startswith("ok")):
                 C.add("prod-tlsd %s %s" % (hx(kek), hx(blob)), real, "prod-tlsd:" + str(damage), {"damage": damage}, reference=True)
+
+    # ------------------------------------------------------------------------------------------ ONE object, many steps
+    # State carried by a client object across a sequence (caches, counters, fields set by setters) is invisible to
+    # the per-call cases above, which build a fresh object each time. Here single objects are driven through random
+    # walks; after every step the result must equal the Lean reference for the CURRENT configuration, and what a
+    # fresh object produces for that configuration.
+    all_keys = {"aes_kek_generation_source": rng.randbytes(16)}
+    for g in range(1, 0x28):
+        all_keys["master_key_%02x" % (g - 1)] = rng.randbytes(16)
+    gens = sorted(set(dauth.KEY_GENERATION.values()))
+    by_gen = {g: [v for v in versions if dauth.KEY_GENERATION[v] == g] for g in gens}
+    for w in range(3 if quick else 40):
+        client = dauth.DAuthClient(dict(all_keys))
+        history = []
+        nsteps = 45 if quick else 120
+        # the walk visits every version at least once, goes up and down, revisits, and changes key generation often
+        order = list(versions); rng.shuffle(order)
+        prev_v = None
+        for step in range(nsteps):
+            r = rng.random()
+            if step < len(order) and r < 0.6: v = order[step]
+            elif r < 0.8 and prev_v is not None:           # jump to another key generation
+                v = rng.choice(by_gen[rng.choice([g for g in gens if g != dauth.KEY_GENERATION[prev_v]])])
+            elif r < 0.9 and prev_v is not None: v = prev_v  # no switch at all
+            else: v = rng.choice(versions)
+            switch = (v != prev_v) or rng.random() < 0.5     # sometimes call set_system_version with the same version
+            region = rng.choice([None, None, 1, 2, 3])
+            edge = rng.random() < 0.5
+            challenge = base64.b64encode(rng.randbytes(32), b"-_").decode()
+            dt = base64.b64encode(rng.randbytes(16), b"-_").decode()
+            if rng.random() < 0.5: dt = dt.rstrip("=")
+            cid = rng.choice([dauth.CLIENT_ID_BAAS, rng.randrange(1 << 64)])
+            vendor = rng.choice(["akamai", "v%d" % rng.randrange(9)])
+            history.append({"set_system_version": v if switch else None, "set_platform_region": region, "call": "edge_token" if edge else "device_token",
+                            "client_id": cid, "vendor": vendor, "challenge": challenge, "data": dt})
+            real, req, cl = R.dauth_token(None, v if switch else None, region, challenge, dt, cid, edge, vendor, client=client)
+            prev_v = v
+            g = dauth.KEY_GENERATION[v]
+            vend = hx(vendor.encode()) if (edge and dauth.API_VERSION[v] == 7) else "none"
+            replay = {"keys": {k: x.hex() for k, x in all_keys.items()}, "sequence_on_one_client": list(history),
+                      "how": "ONE DAuthClient(keys); for each step: set_system_version / set_platform_region if given, then the call against a scripted "
+                             "request callback returning the step's challenge/data; the LAST step's rawform['mac'] is wrong"}
+            C.add("dauth-token %s %s %s %s %d %d %d %s %s" % (hx(all_keys["aes_kek_generation_source"]), hx(all_keys["master_key_%02x" % (g - 1)]), cps(dt),
+                                                              hx(challenge.encode()), cid, 1 if client.region == 2 else 0, g, hx(dauth.SYSTEM_VERSION_DIGEST[v].encode()), vend),
+                  real, "dauth-walk:" + ("edge" if edge else "device"), replay, reference=True)
+            # the same step on a fresh client
+            fresh, _, _ = R.dauth_token(dict(all_keys), v, client.region, challenge, dt, cid, edge, vendor)
+            if fresh != real:
+                oracle_fail.append(("dauth-stateful", "a reused DAuthClient produces a different MAC/form than a fresh client for the same configuration "
+                                    "(step %d: version %d, key generation %d): reused %s, fresh %s" % (len(history), v, g, real[:60], fresh[:60]), replay))
+            # calculate_mac called directly in between (fills / uses any cache as well)
+            if rng.random() < 0.3:
+                form = "a=%d&b=x" % rng.randrange(1000); data = rng.randbytes(16)
+                try: real2 = "ok " + hx(client.calculate_mac(form, data).encode())
+                except Exception as e: real2 = "err " + R.exc_name(e)
+                history.append({"call": "calculate_mac", "form": form, "data": data.hex()})
+                C.add("dauth-mac %s %s %s %s" % (hx(all_keys["aes_kek_generation_source"]), hx(all_keys["master_key_%02x" % (g - 1)]), hx(data), hx(form.encode())),
+                      real2, "dauth-walk:mac", {"keys": {k: x.hex() for k, x in all_keys.items()}, "sequence_on_one_client": list(history)}, reference=True)
+    # one AAuthClient across all versions (api 3 envelopes; api >= 4 passes a token through), up and down
+    aversions = sorted(aauth.API_VERSION)
+    for w in range(1 if quick else 8):
+        client = aauth.AAuthClient()
+        history = []
+        for step in range(16 if quick else 60):
+            v = rng.choice(v3) if rng.random() < 0.6 else rng.choice(aversions)
+            tid = rng.randrange(1 << 64)
+            pk, seed = rng.randbytes(16), rng.randbytes(32)
+            if aauth.API_VERSION[v] == 3:
+                ticket = R.make_ticket(rng, tid)
+                history.append({"set_system_version": v, "title_id": tid, "ticket": ticket.hex(), "plain_key": pk.hex(), "oaep_seed": seed.hex()})
+                real, form = R.aauth_digital(v, tid, 7, ticket, pk, seed, client=client)
+                C.add("aauth-env 0 0 %s %d %s %s" % (hx(ticket), tid, hx(pk), hx(seed)), real, "aauth-walk:v3",
+                      {"sequence_on_one_client": list(history), "how": "ONE AAuthClient; set_system_version then auth_digital per step, RNG pinned"}, reference=True)
+            else:
+                token = "a.b.%d" % rng.randrange(1000)
+                history.append({"set_system_version": v, "title_id": tid, "token": token})
+                real, form = R.aauth_digital(v, tid, 7, token, pk, seed, client=client)
+                if real != "nocertkey" or form.get("cert") != token:
+                    oracle_fail.append(("aauth-stateful", "auth_digital on api version %d did not pass the token through: %s" % (aauth.API_VERSION[v], real[:80]),
+                                        {"sequence_on_one_client": list(history)}))
+    # one HppClient: the call-id counter advances (and wraps), every message is signed on its own
+    for w in range(1 if quick else 6):
+        s = nexsettings.default(); s["prudp.access_key"] = "".join(rng.choice("0123456789abcdef") for _ in range(8))
+        pid, pw = rng.randrange(1 << 32), "pw%d" % w
+        client = R.hpp_client(s, pid, pw)
+        client.call_id = rng.choice([1, 0xFFFFFFFD])
+        history = []
+        for step in range(6 if quick else 12):
+            expect_call = client.call_id
+            proto, meth, body = rng.choice([1, 0x7F, 200]), rng.randrange(1, 0x7FFF), rng.randbytes(rng.randint(0, 20))
+            if rng.random() < 0.3: client.set_environment(rng.choice(["L1", "D1", "T1"]))
+            good = rng.random() < 0.7
+            cid2 = expect_call if good else (expect_call - 1) & 0xFFFFFFFF      # a stale call id (the previous request's) must be rejected
+            rb = rng.randbytes(rng.randint(0, 12))
+            pl = b"\x01" + struct.pack("<II", cid2, meth | 0x8000) + rb
+            resp = struct.pack("<I", len(pl)) + pl
+            history.append({"protocol": proto, "method": meth, "body": body.hex(), "response": resp.hex()})
+            sig, val = R.hpp_request(s, pid, pw, expect_call, proto, meth, body, 200, resp, client=client)
+            data, s1, s2 = sig
+            rp = {"access_key": s["prudp.access_key"], "pid": pid, "password": pw, "sequence_on_one_client": list(history)}
+            C.add("hpp-sig %s %s %d %s" % (hx(bytes.fromhex(s["prudp.access_key"])), hx(pw.encode()), pid, hx(data)), "ok %s %s" % (hx(s1.encode()), hx(s2.encode())), "hpp-walk:sig", rp, reference=True)
+            C.add("hpp-val %d %d %s" % (expect_call, meth, hx(resp)), val, "hpp-walk:val:" + ("ok" if good else "stale-call-id"), rp)
+            # the message that was signed carries this request's call id
+            if struct.unpack_from("<I", data, 5 if proto < 0x7F else 7)[0] != expect_call:
+                oracle_fail.append(("hpp-stateful", "request %d on a reused HppClient does not carry its own call id" % (step + 1), rp))
+            if client.call_id != (expect_call + 1) & 0xFFFFFFFF:
+                oracle_fail.append(("hpp-stateful", "call id counter did not advance modulo 2^32", rp))
+    # one MiiData object rebuilt after attribute changes; parse results re-built
+    for w in range(2 if quick else 20):
+        vals = rand_vals()
+        m = R.mii_object(names, kinds, vals)
+        for step in range(12 if quick else 40):
+            i = rng.randrange(len(names))
+            vals[i] = rand_val(kinds[i], counts[i])
+            v = vals[i]
+            setattr(m, names[i], bytes(v) if kinds[i] == "raw" else "".join(map(chr, v)) if kinds[i] == "wstr" else v)
+            try: real = "ok " + hx(m.build())
+            except Exception as e: real = "err " + R.exc_name(e)
+            C.add("mii-build " + R.show_vals(vals), real, "mii-walk:build", {"fields": dict(zip(names, vals)), "how": "ONE MiiData object, attributes changed between build() calls"}, reference=True)
+            if real.startswith("ok ") and rng.random() < 0.5:
+                m = _miis.MiiData.parse(bytes.fromhex(real[3:]))      # continue from the parsed object
+                got = R.mii_vals_of(m, names, kinds)
+                if got != vals:
+                    oracle_fail.append(("mii-roundtrip:walk", "parse(build()) on a reused object changed fields", {"fields": dict(zip(names, vals))}))
 
     # ------------------------------------------------------------------------------------------ compare
     outs = drv.batch(C.lines)
